@@ -260,11 +260,39 @@ type storeRec struct{ prev, addr, val string }
 // the read address are identical or provably distinct (a sound simplification of
 // select/store terms that keeps the queries small).
 func (e *fnEnc) selectFwd(heapName, addr string) string {
+	return e.selectFwdD(heapName, addr, 0)
+}
+
+func (e *fnEnc) selectFwdD(heapName, addr string, mdepth int) string {
 	addr = foldTerm(addr)
 	h := heapName
 	for depth := 0; depth < 400; depth++ {
 		si, ok := e.storeInfo[h]
 		if !ok {
+			// a two-way merge of memories: the read is the merge of the reads
+			if mi, isMerge := e.mergeInfo[h]; isMerge && mdepth < 6 {
+				var rs []string
+				same := true
+				total := 0
+				for _, mh := range mi.heaps {
+					r := e.selectFwdD(mh, addr, mdepth+1)
+					if len(rs) > 0 && r != rs[0] {
+						same = false
+					}
+					total += len(r)
+					rs = append(rs, r)
+				}
+				if same {
+					return rs[0]
+				}
+				if total < 600 {
+					t := rs[len(rs)-1]
+					for i := len(rs) - 2; i >= 0; i-- {
+						t = ite(mi.conds[i], rs[i], t)
+					}
+					return t
+				}
+			}
 			break
 		}
 		if si.addr == addr {
@@ -1305,8 +1333,17 @@ func (e *fnEnc) ret(st *state, v *ssa.Return) {
 	// vacuity guard: the return must be reachable under the assumptions made so far
 	if st.reach != "false" {
 		e.anchors["cover:return"]++
-		e.covers = append(e.covers, &Obligation{Name: fmt.Sprintf("%s#cover:return@%d", funcKey(e.fn), e.anchors["cover:return"]), Kind: "cover", Func: funcKey(e.fn),
-			Goal: st.reach, CtxLen: len(e.ctx), enc: e, Cover: true})
+		co := &Obligation{Name: fmt.Sprintf("%s#cover:return@%d", funcKey(e.fn), e.anchors["cover:return"]), Kind: "cover", Func: funcKey(e.fn),
+			Goal: st.reach, CtxLen: len(e.ctx), enc: e, Cover: true}
+		// a return whose error result is the literal nil is a success return: if the contracts
+		// assumed along the way make every success return of a function dead, what is proved
+		// about the function is vacuous
+		if n := len(v.Results); n > 0 {
+			if c, isConst := v.Results[n-1].(*ssa.Const); isConst && c.Value == nil && types.Identical(c.Type(), types.Universe.Lookup("error").Type()) {
+				co.Success = true
+			}
+		}
+		e.covers = append(e.covers, co)
 	}
 	if e.fc == nil {
 		return
